@@ -69,6 +69,13 @@ impl Prop for C03 {
       },
     ]
   }
+  fn stages(&self, ctx: &Ctx) -> Vec<Stage> {
+    if ctx.tier == Tier::Thorough {
+      crate::fuzz::campaigns("C03", &["tree_c03"], ctx)
+    } else {
+      vec![]
+    }
+  }
   fn check(&self, case: &TreeCase) -> CheckResult {
     let spec = &case.spec;
     let text = model_text(spec);
